@@ -316,3 +316,12 @@ def run_histories(pairs):
     model = leanio.run_driver("GlueSym", [q for q, _ in pairs],
                               build=["VectorModel.Gen.Exec.All", "VectorModel.Exec.Sym", "VectorModel.Glue.Methods"])
     return [(q, a, b) for (q, a), b in zip(pairs, model) if a != b]
+
+
+def mkvec_float(tok):
+    """real float64 object vector for a vector token (deterministic, well-conditioned, forward timelike values)"""
+    fl, az, lon, tmp, idx = tok.split(":")
+    sig = (az,) + ((lon,) if lon != "-" else ()) + ((tmp,) if tmp != "-" else ())
+    k = int(idx)
+    cart = [1.3 * k, -0.7 + 0.4 * k, 0.9 / k, 6.0 + k][: len(sig) + 1]
+    return C.obj_vec(fl, sig, C.cart_to_stored(sig, cart))
